@@ -138,16 +138,26 @@ claim("C04", "proof",
       LR_NOTE + " The mapping conflict count -> exit status is checked on the binary, not proved.",
       "Rocq proof (dump = canonical collection under a checked certificate) + kernel-evaluated translation validation + exit-status exploration", "6 C04")
 claim("C16", "proof",
-      "Model-level theorems (Properties/C16.v, shallow by design: Parse begins with Reset, lexer Reset = init) plus the correspondence that "
-      "carries the assurance: histories of 2-8 inputs (accepted, rejected, recovered, failing action) on ONE parser object vs fresh objects "
-      "(result, error, expected list, action log, scans) and lexer Scan/Reset histories vs a fresh lexer, also compared with the model.",
-      "Hand-written models tied by differential testing over histories; actions retaining the raw attribute slice (Go slice aliasing) are out of scope.",
-      "Rocq statement over the object-state model + differential exploration over call histories", "6 C16")
+      "Coq theorems (Properties/C16.v) over a model of the parser OBJECT as the generated code represents it (LR/ObjParse.v: the two Go slices "
+      "of the stack with backing arrays that survive Reset, capacity and re-allocating append with arbitrary content in the new cells, "
+      "top/peek/popN indexing those arrays and panicking beyond the length, the stale nextToken field): Parse on EVERY object value returns "
+      "exactly what the list model's Parse returns (result, error with expected list, action log, scans) and re-establishes the "
+      "representation invariant; a history of calls on ONE object returns what fresh parsers return; what lies beyond the slice lengths and "
+      "the growth policy are unobservable; an Example shows the refinement fails for a seeded bad reset. Lexer: Reset = fresh lexer (shallow). "
+      "Tie: histories of 2-8 inputs (accepted, rejected, recovered, failing action, inputs deep enough to grow the arrays) on ONE Go parser "
+      "object vs fresh objects vs the extracted object model threaded through the same history; the driver changes the Context field at "
+      "every Scan and overwrites every list Parse returned before the next call; lexer Scan/Reset histories vs a fresh lexer and the model.",
+      "Hand-written object model tied by differential testing over histories; the slice popN returns aliases the backing array (an action "
+      "that KEEPS its raw X argument would see later pushes): attribute values are immutable in the model.",
+      "Rocq refinement proof (slice-backed parser object refines the list model, for all object states and histories) + extracted-model "
+      "differential correspondence over call histories", "6 C16")
 claim("C17", "other",
       "Partial by nature. Coq theorem (Properties/C17.v): objects that write only their own state over shared immutable data obtain, under "
       "EVERY schedule, exactly their sequential results. The frame assumption is checked on the emitted code on every run (go/types scan: no "
-      "write to package-level state outside init(), plain and -zip). 16 goroutines with own lexer/parser objects run under the race detector "
-      "and are compared with the sequential run.",
+      "write to package-level state outside init(), neither directly nor through the receiver of a method whose type has a package-level "
+      "value; plain and -zip). 16 goroutines with own lexer/parser objects, released together in a cold process BEFORE the sequential "
+      "reference run (lazily initialised shared state is first touched concurrently), run under the race detector and are compared with "
+      "the sequential run.",
       "The Go memory model and the race detector's coverage cannot be carried by a theorem; named as the runtime residue.",
       "Rocq commutation theorem + source-level frame check on generated code + race-detector exploration", "6 C17")
 
